@@ -40,6 +40,8 @@ struct FnDir {
     fn_attrs: Vec<String>,
     /// `@@refmutself`: a by-value receiver `self` of an impl for `&mut T` becomes `&mut self` (E9)
     refmutself: bool,
+    /// `@@refmutself 'a`: the lifetime of that `&'a mut` (the impl is for `&'a mut T`)
+    refmutself_lt: Option<String>,
     boolops: bool,
     nocanary: bool,
     nopub: bool,
@@ -264,7 +266,12 @@ fn parse_template(path: &Path, nodes: &mut Vec<Node>) {
                         "where" => d.wher = Some(rest),
                         "mutself" => d.mutself = true,
                         "attr" => d.fn_attrs.push(rest.clone()),
-                        "refmutself" => d.refmutself = true,
+                        "refmutself" => {
+                            d.refmutself = true;
+                            if !rest.trim().is_empty() {
+                                d.refmutself_lt = Some(rest.trim().to_string());
+                            }
+                        }
                         "boolops" => d.boolops = true,
                         "nocanary" => d.nocanary = true,
                         "nopub" => d.nopub = true,
@@ -1091,6 +1098,14 @@ impl<'a, 'ast> Visit<'ast> for Ed<'a> {
             let b = l.body.span().byte_range().start;
             self.push(b, b, format!("\n{}\n", inv.trim_end()), "splice-loop-invariant", false);
         }
+        if let Some(t) = self.dir.loop_begin.get(&idx) {
+            let b = l.body.span().byte_range().start + 1;
+            self.push(b, b, format!("\n{}\n", t.trim_end()), "splice-loop-ghost", false);
+        }
+        if let Some(t) = self.dir.loop_end.get(&idx) {
+            let e = l.body.span().byte_range().end - 1;
+            self.push(e, e, format!("\n{}\n", t.trim_end()), "splice-loop-ghost", false);
+        }
         visit::visit_expr_while(self, l);
     }
     fn visit_expr_loop(&mut self, l: &'ast syn::ExprLoop) {
@@ -1100,6 +1115,14 @@ impl<'a, 'ast> Visit<'ast> for Ed<'a> {
             self.loops_used.push(idx);
             let b = l.body.span().byte_range().start;
             self.push(b, b, format!("\n{}\n", inv.trim_end()), "splice-loop-invariant", false);
+        }
+        if let Some(t) = self.dir.loop_begin.get(&idx) {
+            let b = l.body.span().byte_range().start + 1;
+            self.push(b, b, format!("\n{}\n", t.trim_end()), "splice-loop-ghost", false);
+        }
+        if let Some(t) = self.dir.loop_end.get(&idx) {
+            let e = l.body.span().byte_range().end - 1;
+            self.push(e, e, format!("\n{}\n", t.trim_end()), "splice-loop-ghost", false);
         }
         visit::visit_expr_loop(self, l);
     }
@@ -1964,7 +1987,8 @@ fn main() {
                         match sig.inputs.first() {
                             Some(syn::FnArg::Receiver(rc)) if rc.reference.is_none() && rc.mutability.is_none() => {
                                 let r = rc.self_token.span().byte_range();
-                                ed.push(r.start, r.start, "&mut ", "E9-receiver-of-impl-for-mut-ref", false);
+                                let t = match &d.refmutself_lt { Some(lt) => format!("&{lt} mut "), None => "&mut ".to_string() };
+                                ed.push(r.start, r.start, t, "E9-receiver-of-impl-for-mut-ref", false);
                             }
                             _ => die(&format!("{ctx}: @@refmutself but receiver is not a plain `self`")),
                         }
